@@ -595,6 +595,10 @@ def get_item(I, obj, idx):
     from .interp import Raised
     if getattr(obj, 'kind', '') == 'repeatdict':
         return obj.state.repeat_get(I, idx)
+    if isinstance(obj, VAny) and I.spec_mode and not isinstance(idx, VSlice):
+        # in a specification: an uninterpreted projection of a dynamically typed value
+        f = z3.Function('any_item', Val, Val, Val)
+        return VAny(f(obj.t, to_any(idx).t))
     if isinstance(obj, VAny) and I.spec_mode == 0 and \
             (getattr(I.contract, 'ghost', None) or {}).get('opaque_subscript'):
         return opaque_event(I, 'subscr', [obj, idx])
@@ -696,9 +700,10 @@ def set_item(I, obj, idx, v):
     if getattr(obj, 'kind', '') == 'repeatdict':
         obj.state.repeat_set(I, idx, v)
         return
-    if isinstance(obj, VAny) and I.spec_mode == 0 and \
+    if isinstance(obj, (VAny, VConc)) and I.spec_mode == 0 and \
             (getattr(I.contract, 'ghost', None) or {}).get('opaque_subscript'):
-        # obj[idx] = v on an opaque object: an event of the ghost trace
+        # obj[idx] = v on an opaque object (or a real container of the running interpreter, such
+        # as sys.modules): an event of the ghost trace
         I.ghost.setdefault('ext_trace', []).append(
             {'name': 'setitem', 'args': [obj, idx, v], 'kwargs': {}, 'raised': False})
         return
@@ -728,7 +733,7 @@ def set_item(I, obj, idx, v):
     if isinstance(obj, VRec):
         I.vc.method_contract(I, obj, '__setitem__', [idx, v], {})
         return
-    raise Unsupported('item assignment on %r' % (obj,))
+    raise Unsupported('item assignment on %.150r' % (obj,))
 
 
 def del_item(I, obj, idx):
